@@ -46,6 +46,13 @@ def build(repo, tier):
             us.append(Unit(f'{pid}/py/CountingInterpreter.{m} refines BasicInterpreter.{m}/{ph}',
                            refine_unit(repo, cs, m, ph, 'CountingInterpreter', 'proof_generation.counting_interpreter'), info={'split_depth': 1}))
     us.append(Unit(f'{pid}/py/CountingInterpreter statistics helpers/frame', counting_frame_unit(repo)))
+    from contracts.pretty import pretty_method_unit, print_stack_unit, STEP_NAME
+    us.append(Unit(f'{pid}/py/PrettyPrintingInterpreter.print_stack', print_stack_unit(repo, cs)))
+    for m in STEP_NAME:
+        if m in ('metavar', 'instantiate', 'instantiate_pattern'):
+            continue
+        for ph in PHASES_OF.get(m, ['Proof']):
+            us.append(Unit(f'{pid}/py/PrettyPrintingInterpreter.{m} refines BasicInterpreter.{m}/{ph}', pretty_method_unit(repo, cs, m, ph), info={'split_depth': 1}))
     for r in RULES:
         us.append(Unit(f'{pid}/py/ProofExp.{r} keeps thunks good', dsl_unit(repo, cs, r), info={'split_depth': 1}))
     for r in ('dynamic_inst', 'instantiate'):
@@ -69,7 +76,7 @@ def build(repo, tier):
                         'load_axiom assumes the axiom is in the tracker memory (established by the gamma phase, C03/C04); publish_proof assumes the next open claim is the proved conclusion (execute_proofs_phase order)',
                         'failures inside BasicInterpreter\'s own checks and ids above 255 (ValueError from bytes(), refused by design, C03) are not counted as disagreement',
                         'CountingInterpreter._collect_patterns / finalize: statistics only (frame checked syntactically; exception-freedom and termination not proved)',
-                        'PrettyPrintingInterpreter (decorator-generated methods) and whole interpreter stacks are covered by the bounded differential stand-in only'],
+                        'PrettyPrintingInterpreter: 21 of its 24 decorator-generated methods are executed through the real decorator and shown to return BasicInterpreter\'s results (metavar / instantiate / instantiate_pattern: bounded); whole interpreter stacks: bounded differential stand-in only'],
                     functions=[(TFILE, 'InterpreterTransformer.' + m) for m in ALL_METHODS] + [(OFILE, 'InstantiationOptimizer.instantiate'), (OFILE, 'InstantiationOptimizer.instantiate_pattern'),
                                (OFILE, 'MemoizingInterpreter.pattern')] + [(SIFILE, 'SerializingInterpreter.' + m) for m in ALL_METHODS] + [(STFILE, 'StatefulInterpreter.' + m) for m in ALL_METHODS] +
                               [(CFILE, 'CountingInterpreter.' + m) for m in ALL_METHODS if m not in ('pop', 'save', 'load', 'publish_axiom', 'publish_claim', 'publish_proof')] +
